@@ -27,7 +27,7 @@ func TestVerifC02(t *testing.T) {
 		Assumptions: []string{"input stays open until all responses arrived (responses at EOF belong to C07's prefix rule)", "race detector on"},
 		Units: func(tier vfTier, seed uint64) int {
 			if tier == vfThorough {
-				return 640
+				return 6400
 			}
 			return 32
 		},
